@@ -40,7 +40,8 @@ _FLAGS: Dict[Any, Any] = {}
 REGEXES = [r'/a$', r'/a/', r'/a', r'/b/(\d+)$', r'/(a|b)/x$', r'/c/.*', r'/$', r'/d/e/f$', r'.*/zz$']
 PATHS = ['/a', '/a/', '/a/x', '/b/12', '/b/x', '/c/anything/here', '/', '/d/e/f', '/q/zz', '/nomatch', '/a?k=v', '/b/7?x=1', '/A', '/aa']
 URLS = [b'http://u1.test/t1', b'http://u2.test:8081/t2/deep?fixed=1', b'http://u3.test', b'http://u4.test:80/', b'https://s1.test/sec',
-        b'https://s2.test:8443/sec2', b'http://10.1.1.1:9000/ip', b'http://u5.test:8080']
+        b'https://s2.test:8443/sec2', b'http://10.1.1.1:9000/ip', b'http://u5.test:8080',
+        b'http://[::1]:9001/v6', b'http://[fd00::2]/v6-default-port', b'https://[fd00::3]:9443/v6s']
 LITERAL = b'HTTP/1.1 200 OK\r\nContent-Length: 15\r\nX-Literal: %d\r\n\r\nliteral-reply-%d'
 
 
@@ -88,7 +89,7 @@ def url_parts(u: bytes) -> Tuple[str, int, bytes, bytes]:
     s = urlsplit(u.decode())
     port = s.port if s.port is not None else (443 if s.scheme == 'https' else 80)
     path = (s.path or '') + (('?' + s.query) if s.query else '')
-    auth = (s.hostname or '').encode() + ((b':%d' % s.port) if s.port is not None else b'')
+    auth = s.netloc.rsplit('@', 1)[-1].encode()      # the authority as written (an IPv6 literal keeps its brackets)
     return s.hostname or '', port, (path or '/').encode(), auth
 
 
@@ -110,12 +111,14 @@ def run_case(c: Dict[str, Any]) -> Dict[str, Any]:
     w.origin_factory = fac
     # https upstreams: observe the connect, then refuse it
     https_endpoints = set()
+    v6 = lambda h: '[' + h + ']' if ':' in h else h     # noqa: E731  (the harness sees the host as the proxy spells it)
     for plug in c['table']:
         for r in plug:
             for u in r.get('urls', []):
                 if u.startswith(b'https://'):
                     h, p, _, _ = url_parts(u)
                     https_endpoints.add((h, p))
+                    https_endpoints.add((v6(h), p))
     orig_on_connect = w.on_connect
 
     def on_connect(addr: Any, source_address: Any, **kw: Any) -> Any:
@@ -180,6 +183,10 @@ def evaluate(c: Dict[str, Any]) -> Tuple[List[Any], Dict[str, Any]]:
             out.append(('several-outbound-connections-for-one-request', feat, conns, 1))
             return out, info
         (addr, result) = conns[0]
+        if addr[0].startswith('[') and addr[0].endswith(']'):
+            # the harness stands in for proxy.common.utils.new_socket_connection, which itself strips the brackets of an
+            # IPv6 literal before handing it to the operating system: '[x]' and 'x' name the same endpoint here
+            addr = (addr[0][1:-1],) + tuple(addr[1:])
         cands = [u for u in url_ok if (url_parts(u)[0], url_parts(u)[1]) == (addr[0], addr[1])]
         if not cands:
             out.append(('connected-to-endpoint-of-no-matching-route', feat, {'connect': addr}, [url_parts(u)[:2] for u in url_ok]))
